@@ -140,6 +140,9 @@ func Contains(a, b V) Tri {
 		if b.K == gen.KStr {
 			return tri(strings.Contains(a.S, b.S))
 		}
+		if b.K == gen.KNil {
+			return False // nil is no piece of text
+		}
 		return Unspec
 	case gen.KArr:
 		res := False
